@@ -124,6 +124,47 @@ def _val(fn):
     return {'ok': False, 'v': []}
 
 
+def _witness(r, method, conds, unit, acct):
+    """Activation value ingredients taken from the SPECIES objects (never from the reaction
+    layer): dimensionless H or G of every species of the initial, transition and final state at
+    each condition.  The trace specification combines them (Trace_ChemkinDoc!SpeciesValue)."""
+    from pmutt import constants as c
+    if method is None:
+        return {'ok': False, 'w': []}
+    form = method[4]                                   # get_[E|H|G]...
+    getter = 'get_GoRT' if form == 'G' else 'get_HoRT'
+    ts = r.transition_state
+    if form == 'E' and ts is None:
+        return {'ok': False, 'w': []}
+    try:
+        out = []
+        for cond in conds:
+            kw = {'T': cond['T']}
+            if cond.get('P') is not None:
+                kw['P'] = cond['P']
+            val = lambda sp: float(getattr(sp, getter)(**kw))
+            is_ = [(int(n), val(sp)) for sp, n in zip(r.reactants, r.reactants_stoich)]
+            ps_ = [(int(n), val(sp)) for sp, n in zip(r.products, r.products_stoich)]
+            ts_ = [(int(n), val(sp)) for sp, n in zip(ts, r.transition_state_stoich)] if ts is not None else []
+            rt = 1. if 'oRT' in method else c.R('{}/K'.format(unit)) * cond['T']
+            if not all(core.finite(v) for _, v in is_ + ps_ + ts_):
+                return {'ok': False, 'w': []}
+            out.append({'form': form, 'hasts': ts is not None,
+                        'is': [[n, to_dec(v)] for n, v in is_], 'ts': [[n, to_dec(v)] for n, v in ts_],
+                        'ps': [[n, to_dec(v)] for n, v in ps_], 'rt': to_dec(rt)})
+            if ts is not None:                          # vacuity accounting only
+                s0 = sum(n * v for n, v in is_)
+                barrier = sum(n * v for n, v in ts_) - s0
+                floor = max(0., sum(n * v for n, v in ps_) - s0)
+                key = '%s_%s' % (method, 'ts_above_floor' if barrier > floor else 'ts_below_floor')
+                acct[key] = acct.get(key, 0) + 1
+                if r.is_adsorption:
+                    acct['activated_adsorption_entries'] = acct.get('activated_adsorption_entries', 0) + 1
+        return {'ok': True, 'w': out}
+    except Exception:
+        return {'ok': False, 'w': []}
+
+
 def _write_event(ev, call, d, fname, extra):
     """call(filename) runs the real writer.  Returns (event, returned text or None)."""
     e = {'ev': ev, 'raised': '', 'same': True, 'lines': []}
@@ -184,6 +225,13 @@ def execute(case):
                'column_delimiter': o['cd'], 'act_method_name': act, 'act_unit': unit,
                'stoich_format': o.get('sf', '.0f')}
 
+        acct = {}
+        events[0]['acct'] = acct
+        here = [{'T': o['T'], 'P': o.get('P')}]
+
+        def wit(r, ads_method):
+            return _witness(r, ads_method if r.is_adsorption else act, here, unit, acct)
+
         def model(r, sden_op, ads_method):
             if r.is_adsorption:
                 if ads_method is None:
@@ -197,7 +245,8 @@ def execute(case):
         e, gpath = _write_event(
             'write_gas', lambda fn: ck.write_gas(nasa_species=species, reactions=reactions,
                                                  filename=fn, **dict(fmt, **kw)),
-            d, 'gas.inp', {'model': [model(r, None, None) for r in rxs]})
+            d, 'gas.inp', {'model': [model(r, None, None) for r in rxs],
+                           'wit': [wit(r, None) for r in rxs]})
         events.append(e)
         if gpath:
             events.append(_read_event('gas', gpath, species))
@@ -208,6 +257,7 @@ def execute(case):
                                                    sden_operation=o['sden_op'], ads_act_method=ads_act,
                                                    use_mw_correction=o['mw'], **dict(fmt, **kw)),
             d, 'surf.inp', {'model': [model(r, o['sden_op'], ads_act) for r in rxs],
+                            'wit': [wit(r, ads_act) for r in rxs],
                             'mw': 'MWON' if o['mw'] else 'MWOFF', 'unit': unit_toks})
         events.append(e)
         if spath:
@@ -228,7 +278,9 @@ def execute(case):
                                                    stoich_format=o.get('sf', '.0f'),
                                                    column_delimiter=o['cd']),
                 d, 'EAg.inp' if gas else 'EAs.inp',
-                {'gas': gas, 'ncond': len(conds), 'model': [ea_model(r) for r in rxs]})
+                {'gas': gas, 'ncond': len(conds), 'model': [ea_model(r) for r in rxs],
+                 'wit': [_witness(r, o['ea_ads_act'] if r.is_adsorption else o['ea_act'], conds, unit, acct)
+                         for r in rxs]})
             events.append(e)
         # T_flow.inp
         e, _ = _write_event(
@@ -326,7 +378,7 @@ def _finish_rx(rnd, case, rx, p_ts):
     rx['stick'] = rnd.choice([0.5, 1., 0.1, round(rnd.uniform(0.001, 1.), 4)])
     rx['beta'] = rnd.choice([1., 0., 0.5, -1., 2., round(rnd.uniform(-2, 2), 2)])
     rx['ts'] = 0
-    if not rx['ads'] and rnd.random() < p_ts:
+    if rnd.random() < (0.4 if rx['ads'] else p_ts):
         site = max([sp[i - 1]['site'] for c, i in rx['lhs'] + rx['rhs']] + [0])
         t = {'name': 'TS%d' % (len(case['ts']) + 1), 'ph': 'S' if site else 'G', 'site': site,
              'bulk': False, 'occ': 1, 'els': {'H': 1}}
@@ -491,7 +543,10 @@ def _exercised(cases, traces):
         'mechanisms_with_2plus_sites', 'mechanisms_gas_and_surface', 'tlc_cases_with_expectation',
         'tube_rows', 'tflow_rows', 'dimensionless_act', 'spaced_delimiters',
         'ea_gibbs_plain_method', 'ea_gibbs_adsorption_method', 'run_pairs_equalT_diffP',
-        'run_pairs_equal_TP', 'run_pairs_diffT_equalP', 'ea_entries_equalT_diffP_value_differs')}
+        'run_pairs_equal_TP', 'run_pairs_diffT_equalP', 'ea_entries_equalT_diffP_value_differs',
+        'activated_adsorption_entries')}
+    for m in ACTS:
+        ex[m + '_ts_above_floor'] = ex[m + '_ts_below_floor'] = 0
     for case, (tid, events) in zip(cases, traces):
         sp = case['species']
         kinds = []
@@ -512,6 +567,8 @@ def _exercised(cases, traces):
         ex['tlc_cases_with_expectation'] += 'exp' in case
         ex['dimensionless_act'] += 'oRT' in case['opts']['act']
         ex['spaced_delimiters'] += (' ' in case['opts']['sd'] or ' ' in case['opts']['rd'])
+        for k, v in events[0].get('acct', {}).items():
+            ex[k] = ex.get(k, 0) + v
         ex['ea_gibbs_plain_method'] += case['opts']['ea_act'] == 'get_GoRT_act'
         ex['ea_gibbs_adsorption_method'] += case['opts']['ea_ads_act'] == 'get_GoRT_act'
         cs = case['opts']['conds']
@@ -552,7 +609,7 @@ def run(ctx):
     ctx.coverage['rule'] = (
         'a case is one mechanism (species with phase/site/occupancy/elements, catalyst sites, '
         'reactions with integer stoichiometry, adsorption flag, transition state) plus writer options; '
-        'tlc cases are a seeded sample (700 quick / 3000 thorough) of the written sessions of MC_ChemkinDoc_cases.cfg '
+        'tlc cases are a seeded sample (600 quick / 3000 thorough) of the written sessions of MC_ChemkinDoc_cases.cfg '
         'carrying the documents TLC expects, rand cases are random mechanisms of 1-40 reactions over '
         '2-30 species on 1-3 sites; every case is written by write_gas, write_surf, write_EA (both), '
         'write_T_flow, write_tube_mole, read back by read_reactions and judged event by event by '
@@ -593,7 +650,7 @@ def run(ctx):
         ctx.coverage['tlc_cases'] = len(chunks)
         if not chunks:
             raise core.MachineryError('TLC printed no cases')
-        chunks = rnd.sample(chunks, min(ctx.pick(700, 3000), len(chunks)))
+        chunks = rnd.sample(chunks, min(ctx.pick(600, 3000), len(chunks)))
         recs = [core.parse_tla(c) for c in chunks]
         i = r.out.find('<< "RUNS"')
         runlists = [core.parse_tla(pv)[1] for pv in core.extract_printed(r.out[max(i, 0):max(i, 0) + 60000])
@@ -605,7 +662,7 @@ def run(ctx):
         ctx.coverage['tlc_run_lists'] = len(runlists)
         cases = [tlc_case(rec[1], rec[2], rnd, 't%d' % k, runlists[k % len(runlists)])
                  for k, rec in enumerate(recs)]
-        for k in range(ctx.pick(260, 1500)):
+        for k in range(ctx.pick(240, 1500)):
             cases.append(random_case(rnd, 'r%d' % k, big=(k % 4 == 0)))
     results = core.pmap(_safe_execute, cases)
     traces = []
